@@ -152,6 +152,12 @@ def _lib():
     return R, pretty_good_measurement, pretty_bad_measurement, measure
 
 
+def preload():
+    _lib()
+    import cvxpy  # noqa: F401
+    import scipy.linalg  # noqa: F401
+
+
 def call_gen(R, name, params, seed):
     fn = getattr(R, name)
     try:
